@@ -1,4 +1,5 @@
 From Coq Require Import List NArith Bool Permutation Sorted.
+Require Import MV.Common.Interleave MV.C03.MemoRace MV.C03.MemoRaceProofs.
 Import ListNotations.
 Require Import MV.C03.Model MV.C03.Spec MV.C03.Exec MV.C03.Order MV.C03.StableSort MV.C03.Proofs MV.C03.MemoProofs MV.C03.ExecProofs.
 Open Scope N_scope.
@@ -84,3 +85,7 @@ Check (C03_before_fix_differs_only_when_two_labels_share_a_name : forall n1 n2 a
 Print Assumptions C03_before_fix_differs_only_when_two_labels_share_a_name.
 Check (C03_label_order_matters_with_repeated_names : exists a b, fst a = fst b /\ Permutation (snd a) (snd b) /\ key_eq a b = false /\ key_cmp a b = Lt).
 Print Assumptions C03_label_order_matters_with_repeated_names.
+Check (C03_get_hash_stable_under_races : forall (h : N) ps sched,
+  Forall (fun l => Forall (fun r => r = h) (MemoRace.results l))
+         (snd (fst (exec (MemoRace.step h) MemoRace.site (MemoRace.init_config ps) sched)))).
+Print Assumptions C03_get_hash_stable_under_races.
